@@ -197,7 +197,8 @@ def fit(data, filter_names, apertures, model_dir, output, n_data_min=3,
     print("")
     print("   File   : %s" % output)
     print("   Format : %s" % output_format[0])
-    print("   Number : %g" % output_format[1])
+    if output_format[0] != 'A':  # the value is ignored when all fits are kept
+        print("   Number : %g" % output_format[1])
     print("")
     print(" ------------------------------------------------------------")
     print("  => Data format parameters")
